@@ -11,6 +11,7 @@ export GOFLAGS=-mod=mod GOPROXY=off GOSUMDB=off GOTOOLCHAIN=local
 export CGO_ENABLED=0
 HERE="$(cd "$(dirname "$0")" && pwd)"
 MC="$HERE/mc"
+export VERIF_DIR="$HERE"
 REPO=/repo
 
 build() { # $1 = output dir ; builds $1/check ; $2 = mode (base|sched)
